@@ -427,7 +427,17 @@ func ruleIndexArms(r *Report) {
 			// reader's own predicates evaluated accordingly) and the predicate's result forced to
 			// true, no clearing block is reachable and every setting block is; forced to false, the
 			// other way round
-			cb := cbs[0].Ins.(*ssa.Call)
+			cb, _ := cbs[0].Ins.(*ssa.Call)
+			if cbs[0].Inlined && cbs[0].Inner != nil {
+				// the predicate is called inside a helper (put(r)): its result is the inner call's
+				if ic, isCall := cbs[0].Inner.(*ssa.Call); isCall {
+					cb = ic
+				}
+			}
+			if cb == nil {
+				h.Unknown(b.Name+"/Put/guard", r.P.Pos(b.Fn.Pos()), "predicate call not recognised")
+				continue
+			}
 			under := func(pred bool) map[*ssa.BasicBlock]bool {
 				return reachableUnder(b.Fn, func(v ssa.Value) (bool, bool) {
 					if v == ssa.Value(cb) {
@@ -447,6 +457,9 @@ func ruleIndexArms(r *Report) {
 					return true
 				}
 				reach := reachableUnder(e.H.fn, func(v ssa.Value) (bool, bool) {
+					if v == ssa.Value(cb) {
+						return pred, true // the predicate is called inside the helper itself (put(r))
+					}
 					if k, eq, ok := typeTest(v); ok {
 						return (k == opPut) == eq, true
 					}
